@@ -55,10 +55,14 @@ package dedup
 //@   ensures cached: (id in c.errors) && c.errors[id] != nil && c.errors[id].err == err && (c.errors[id].expiresAt == c.clk.now + c.config.NotFoundTTL || c.errors[id].expiresAt == c.clk.now + c.config.ErrorTTL)
 //@   ensures others: forall k string :: k != id ==> ((k in c.pending) <==> old(k in c.pending)) && ((k in c.errors) <==> old(k in c.errors)) && c.errors[k] == old(c.errors[k])
 
-// run: executes the request once and gives the token back on both outcomes.
+// run: executes the request once and gives the token back on both outcomes. A failed request
+// gives its token back only inside RequestCache.error, i.e. in the same critical section that caches
+// the error (failed_request_not_released: the plain release is reached only after success), so no
+// Start can be accepted between the two.
 //@ func RequestCache.run
 //@   requires rcshape(c) && r != nil
 //@   modifies map c.pending, map c.errors, c.clk.now
+//@   assert failed_request_not_released: at RequestCache.release#0 :: err == nil
 //@   ensures token_returned: !(id in c.pending)
 
 //@ func RequestCache.reserveWorker
